@@ -19,11 +19,18 @@ func routeImpl(g *Grid, verts []Pt, a, b Pt, level uint) ([]Pt, error) {
 	if err != nil {
 		return nil, err
 	}
-	for _, v := range verts {
+	// in half of the cases the index is used between insertions (insert, snap, insert, snap): the route must depend on
+	// the set of occupied pixels only, not on the history of the index
+	incremental := len(verts) >= 2 && (verts[0][0]/7+verts[0][1]/3)%2 == 0
+	for i, v := range verts {
 		x, _ := toFloat(v[0])
 		y, _ := toFloat(v[1])
 		if err := ix.InsertPoint([2]float64{x, y}); err != nil {
 			return nil, err
+		}
+		if incremental && i == len(verts)/2-1 {
+			_ = pointindex.VerifSnapClosestPoints(ix, intgeom.Line{{a[0], a[1]}, {b[0], b[1]}}, []pointindex.Level{pointindex.Level(level)})
+			_ = pointindex.VerifSnapClosestPoints(ix, intgeom.Line{{b[0], b[1]}, {a[0], a[1]}}, []pointindex.Level{pointindex.Level(level)})
 		}
 	}
 	res := pointindex.VerifSnapClosestPoints(ix, intgeom.Line{{a[0], a[1]}, {b[0], b[1]}}, []pointindex.Level{pointindex.Level(level)})
